@@ -150,6 +150,10 @@ Definition run_for (enumerate : bool) (c : sexp) : sexp :=
 Definition run_C11 (c : sexp) : sexp :=
   if Z.eqb (as_Z (nth_s 0 c)) 11 then run_for false c else
   if Z.eqb (as_Z (nth_s 0 c)) 12 then run_for true c else
+  (* mode 14 (harness/dom/src/c11store.rs): <For> over a keyed store field; the observation is that of
+     mode 11 (the count a row shows is the label of its item in the store, incremented once per entry),
+     whatever path the writes take (the 5th component of the case) *)
+  if Z.eqb (as_Z (nth_s 0 c)) 14 then run_for false c else
   let shaped := Z.eqb (as_Z (nth_s 0 c)) 20 in
   let shapes := map (shape_nodes 40) (as_list (nth_s 4 c)) in
   let bld := if shaped then var_bld (fun k => length (shape_of shapes k)) else fixed_bld (as_nat (nth_s 0 c)) in
